@@ -374,7 +374,7 @@ def generate_huge(rng, seed, size):
     expected list is built from the discriminants (repr(u32), implicit discriminants 0..), never by strum."""
     out = []
     out.append("// @generated by /verif/gen/gen_corpus.py --seed %d (engine c05, huge enums, size %s). Do not edit.\n" % (seed, size))
-    out.append("use strum::EnumIter;\nuse strum_sim::c05::{mk, Case, IterHandle};\n\n")
+    out.append("use strum::EnumIter;\nuse strum_sim::c05::{mk_core, Case, IterHandle};\n\n")
     cases = []
     sizes = [65535, 65536, 65537] if size == "huge" else []  # every other size gets an empty stub
     for i, n in enumerate(sizes):
@@ -395,7 +395,7 @@ def generate_huge(rng, seed, size):
         dis = ", ".join(str(d) for d in sorted(disabled))
         out.append("fn exp_%s() -> Vec<%s> {\n    let disabled: &[u32] = &[%s];\n    (0..%du32).filter(|d| !disabled.contains(d)).map(|d| unsafe { core::mem::transmute::<u32, %s>(d) }).collect()\n}\n"
                    % (name.lower(), name, dis, total, name))
-        cases.append('    Case { name: "%s", n: %d, desc: "enum %s { %d variants, %d enabled, disabled at [%s] }", make: || mk::<%s>(exp_%s()) },\n'
+        cases.append('    Case { name: "%s", n: %d, desc: "enum %s { %d variants, %d enabled, disabled at [%s] }", make: || mk_core::<%s>(exp_%s()) },\n'
                      % (name, n, name, total, n, dis, name, name.lower()))
     out.append("pub static CASES: &[Case] = &[\n")
     out.extend(cases)
